@@ -115,6 +115,10 @@ def run(an: Analysis, rep):
     rep.run(c06.reset_rules, an, SharedRules(rep, "R05.Z", "normalize strips every positional artefact together (shared with C06's R06.1/R06.2): an override kept on one kind of table entry while the list of "
                                                            "unreferenced entries is dropped leaves a gap in that table, and normalize(x).to_code() raises instead of giving an equivalent code object"))
     rep.run(r05t, an, rep)
+    rep.run(lambda a_, r_: c04.r04f(a_, r_, roundtrip=True), an, SharedRules(rep, "R05.Y2", "from_code then to_code folded over witness code objects of every kind of scope (C04's R04.W witnesses), "
+                                                                             "one with its first instruction a line above co_firstlineno (3.8 / 3.9 modules that begin with a multi-line display): to_code() must accept what from_code returns"))
+    from .common import rejection_paths_rule as _rpr5
+    rep.run(_rpr5, an, SharedRules(rep, "R05.R2", "every place where to_code can stop with an exception is one confirmed by reading (shared with C03's R03.R)"), "R03.R", ["to_code"], c03.ENCODER_REJECTIONS, "to_code")
     rep.run(c06.r06n, an, SharedRules(rep, "R05.Y", "normalize folded over witness data full of artefacts (shared with C06's R06.N): every public field - instructions, operands, jump targets, lines, "
                                                    "signature, docstring, free variables, names - comes back as given, at every depth; only private fields change"))
     shg5 = SharedRules(rep, "R05.G", "the decoder's instruction function and parser folded over witness code units (shared with C02's R02.F / R02.8): normalize().to_code() can only mean what c "
@@ -203,7 +207,7 @@ def r05k(an, rep, rule="R05.K2", output_order=False):
             return (math.isnan(a) and math.isnan(b)) or (a == b and math.copysign(1, a) == math.copysign(1, b))
         return a == b
     W = [1, True, "a", b"x", None, Ellipsis, 1.5, -0.0, complex(0.0, -0.0), (1, ("b", 2.0)), frozenset({1, 2, 3}), (frozenset({("c", 1)}), 7), frozenset({("alpha", 1), ("beta", 2)}),
-         frozenset({7, 15, 23}), frozenset({"x", b"y", None})]
+         frozenset({7, 15, 23}), frozenset({"x", b"y", None}), frozenset({("a", "b"), "cd", b"ef"})]
     bad = []
     reordered = []
     rebuilt_t = []
